@@ -106,19 +106,24 @@ def make_resolver(ctx, unit, ops, skip=(), coroutines=False):
             return None  # the model knows what is being called here (e.g. the user's callable, not the library default)
         pick = getattr(ops, "callee_unit", None)
         exact = pick(call, env) if pick is not None else None
+        exact_self = None
+        if isinstance(exact, tuple):  # a method of the object the model holds: (unit, the object)
+            exact, exact_self = exact
         try:
-            fv = [("libfn", exact.fq)] if exact is not None else ctx.vals.expr(unit, call.func, None)
+            fv = [("@exact", exact)] if exact is not None else ctx.vals.expr(unit, call.func, None)
         except Exception:  # noqa: BLE001
             return None
         if exact is None and pick is not None and len({f for f in fv if f[0] in ("libfn", "bound", "cls")}) > 1:
             return None  # several candidates and the model does not say which: leave the call to the model
         for f in fv:
             target, offset = None, 0
-            if f[0] == "libfn":
+            if f[0] == "@exact":
+                target, offset = f[1], (1 if exact_self is not None else 0)
+            elif f[0] == "libfn":
                 target = ctx.pkg.lib_unit(f[1])
             elif f[0] == "bound":
                 target = ctx.vals.find_method(f[1], f[2])
-                offset = 1
+                offset = 0 if target is not None and target.is_static() else 1
             if target is None or target.is_property() or \
                     target.kind not in (("sync", "coroutine") if coroutines else ("sync",)):
                 continue
@@ -127,7 +132,8 @@ def make_resolver(ctx, unit, ops, skip=(), coroutines=False):
             names = target.param_names()
             bound = {}
             if offset and names:
-                bound[names[0]] = ev.eval(call.func.value, env) if isinstance(call.func, ast.Attribute) else None
+                bound[names[0]] = exact_self if exact_self is not None else (
+                    ev.eval(call.func.value, env) if isinstance(call.func, ast.Attribute) else None)
             for pname, arg in zip(names[offset:], call.args):
                 if isinstance(arg, ast.Starred):
                     break
